@@ -1,3 +1,4 @@
+import SqlgrepModel.Model.JsonDoc
 import SqlgrepModel.Model.Lex
 import SqlgrepModel.Model.ParseStmt
 import SqlgrepModel.Model.Lower
@@ -99,7 +100,7 @@ def getTable (ts : List Table) (name : String) : Option Table := ts.reverse.find
 structure LineFacts where
   captures : List (Text × Option (List (Option Text))) := []   -- regex source ↦ `Regex::captures(line)` (group texts)
   splits : List (Text × List Text) := []                       -- regex source ↦ `Regex::split(line)`
-  json : Option Json := none                                   -- `serde_json::from_str(line)`
+  json : Option (Option Json) := none                          -- `serde_json::from_str(line)` (`some none` = an error); `none` = no fact shipped: `JsonDoc.docOfLine` computes it
   deriving Inhabited
 
 /-- all external facts of one run -/
@@ -130,7 +131,9 @@ def lineOracle (line : Text) (f : LineFacts) : LineOracle :=
   { line := line
     captures := fun re => (f.captures.lookup re).join
     split := fun re => (f.splits.lookup re).getD []
-    json := f.json }
+    json := match f.json with
+      | some j => j                        -- a shipped fact (cross-checked against the computed document by the driver)
+      | none => JsonDoc.docOfLine line }   -- `serde_json::from_str` as computed by `Model/JsonDoc.lean`
 
 /-- every fact `TableDefinition::extract(line)` asks the libraries for has been shipped -/
 def factsCover (F : Facts) (d : TableDef) (line : Text) : Bool :=
